@@ -28,7 +28,7 @@ from harness import common
 from harness.common import Model
 
 PID = "C04"
-TRANSLATORS = ["T-refine"]
+TRANSLATORS = ["T-refine", "T-solvefs"]
 KNOWN = []
 
 ASSUMPTIONS = [
@@ -307,6 +307,231 @@ def run_real(case, td):
     return obs
 
 
+# ----------------------------------------------------------------- X-fs (a dump directory that outlives a query)
+
+FS_SOLVER = r"""#!/bin/sh
+# scripted solver that answers by the `; key=K` line of the file it is HANDED
+D='@D@'
+f="$1"
+if [ ! -f "$f" ]; then echo "$(basename "$f") NOFILE" >> "$D/log"; echo '(error "no file")'; exit 0; fi
+k=$(sed -n 's/^; key=\(.*\)$/\1/p' "$f" | head -n 1)
+if grep -q '(define-fun f_evm_' "$f"; then k="$k.r"; fi
+echo "$(basename "$f") $k" >> "$D/log"
+if [ -f "$D/ans/$k.sleep" ]; then sleep 4; fi
+if [ -f "$D/ans/$k.out" ]; then
+  cat "$D/ans/$k.out"
+  if [ -f "$D/ans/$k.err" ]; then cat "$D/ans/$k.err" >&2; fi
+else
+  echo '(error "no answer")'
+fi
+"""
+
+FS_RESULT = {"valid": 1, "abstract": 1, "unsat": 0, "unknown": 2, "garbage": 3, "timeout": 2}
+
+
+def fs_answer(kind, v):
+    """-> (stdout, stderr) of the scripted solver for an answer kind and model value v"""
+    if kind == "valid":
+        return (f"sat\n(\n  (define-fun p_x_uint256_00 () (_ BitVec 256) #x{v:064x})\n)\n", "")
+    if kind == "abstract":
+        return (f"sat\n(\n  (define-fun p_x_uint256_00 () (_ BitVec 256) #x{v:064x})\n"
+                "  (define-fun f_evm_bvmul_256 ((x!0 (_ BitVec 256)) (x!1 (_ BitVec 256))) (_ BitVec 256) #x00)\n)\n", "")
+    if kind == "unsat":
+        return ("unsat\n(error \"line 9: model is not available\")\n", "")
+    if kind == "unknown":
+        return ("unknown\n", "")
+    if kind == "garbage":
+        return ("(error \"boom\")\n", f"boom {v}\n")
+    return ("", "")  # timeout: never printed
+
+
+def fs_smtlib(key, changes):
+    decl = ("(declare-fun f_evm_bvmul_256 ((_ BitVec 256) (_ BitVec 256)) (_ BitVec 256))\n" if changes
+            else "(declare-fun f_evm_exp_256 ((_ BitVec 256) (_ BitVec 256)) (_ BitVec 256))\n")
+    return f"; key={key}\n" + decl + "(declare-fun p_x_uint256_00 () (_ BitVec 256))\n(assert true)\n"
+
+
+def gen_sessions(tier, r):
+    """A session = one dump directory (as with --dump-smt-directory: shared by the overloads
+    of a test, the probes of an invariant test, successive runs) and a sequence of path
+    conditions solved in it.  Path ids restart / repeat, so files named like the current
+    query's are usually there already, left by a DIFFERENT query."""
+    n = 24 if tier == "quick" else 300
+    sessions = []
+    for si in range(n):
+        pre = []
+        if r.random() < 0.6:  # leftovers of an earlier run
+            for j in range(r.randint(1, 3)):
+                pid = r.choice([0, 1, 2])
+                inf = r.choice(["", "", ".refined"])
+                key = f"old{si}x{j}"
+                kind = r.choice(["valid", "valid", "unsat", "abstract"])
+                style = r.choice(["dump", "dump", "empty", "nokey"])
+                content = {"dump": "(set-logic QF_AUFBV)\n" + fs_smtlib(key, False) + "\n(check-sat)\n(get-model)\n",
+                           "empty": "", "nokey": "(set-logic QF_AUFBV)\n(assert false)\n(check-sat)\n"}[style]
+                pre.append({"name": f"{pid}{inf}.smt2", "content": content, "key": key, "kind": kind, "v": r.randrange(1 << 64)})
+                if r.random() < 0.5:
+                    pre.append({"name": f"{pid}{inf}.smt2.out", "content": fs_answer(kind, 7)[0], "key": None})
+                if r.random() < 0.2:
+                    pre.append({"name": f"{pid}{inf}.smt2.err", "content": "old error\n", "key": None})
+        steps = []
+        pid = r.choice([0, 1, 2])
+        for j in range(r.randint(2, 5)):
+            if r.random() < 0.35:
+                pid = r.choice([0, 1, 2, 10])
+            k1 = r.choice(["valid", "valid", "abstract", "abstract", "abstract", "unsat", "unknown", "garbage"])
+            if tier != "quick" and r.random() < 0.03:
+                k1 = "timeout"
+            steps.append({"key": f"s{si}q{j}", "path_id": pid, "is_refined": r.random() < 0.15, "cache": r.random() < 0.4,
+                          "changes": r.random() < 0.75, "core_hit": r.random() < 0.08,
+                          "k1": k1, "v1": r.randrange(1 << 64),
+                          "k2": r.choice(["valid", "valid", "abstract", "unsat", "unknown", "garbage"]), "v2": r.randrange(1 << 64)})
+        sessions.append({"pre": pre, "steps": steps})
+    if tier == "quick":  # one answer that does not arrive in time
+        sessions.append({"pre": [{"name": "0.smt2", "content": "(set-logic QF_AUFBV)\n" + fs_smtlib("oldT", False) + "\n(check-sat)\n(get-model)\n",
+                                  "key": "oldT", "kind": "valid", "v": 5}],
+                         "steps": [{"key": "T0", "path_id": 0, "is_refined": False, "cache": False, "changes": True, "core_hit": False,
+                                    "k1": "timeout", "v1": 1, "k2": "valid", "v2": 2},
+                                   {"key": "T1", "path_id": 0, "is_refined": False, "cache": False, "changes": True, "core_hit": False,
+                                    "k1": "abstract", "v1": 3, "k2": "valid", "v2": 4}]})
+    return sessions
+
+
+def fs_spec(step):
+    """What the property demands of one solve, from the answers the solver gives for THIS query:
+    -> dict(result, valid, runs, value, keys) (value: reported value of p_x or None; keys: the
+    queries the solver must have been asked, in order)."""
+    key = step["key"]
+    if step["core_hit"]:
+        return {"result": 0, "valid": 0, "runs": 0, "value": None, "keys": []}
+    k1 = step["k1"]
+    if k1 == "abstract" and not step["is_refined"] and step["changes"]:
+        k2 = step["k2"]
+        return {"result": FS_RESULT[k2], "valid": int(k2 == "valid"), "runs": 2,
+                "value": step["v2"] if k2 in ("valid", "abstract") else None, "keys": [key, key + ".r"]}
+    return {"result": FS_RESULT[k1], "valid": int(k1 == "valid"), "runs": 1,
+            "value": step["v1"] if k1 in ("valid", "abstract") else None, "keys": [key]}
+
+
+def read_dir(d):
+    return {p.name: p.read_text() for p in sorted(d.iterdir()) if p.is_file()}
+
+
+def run_session(sess, td):
+    """Runs the real solve_end_to_end for every step of the session in ONE dump directory.
+    -> list of observations (one per step)."""
+    from pathlib import Path as P
+    from types import SimpleNamespace as NS
+
+    import halmos.solve as S
+    from halmos.sevm import SMTQuery
+
+    base = P(tempfile.mkdtemp(dir=td))
+    d = base / "dump"
+    d.mkdir()
+    (base / "ans").mkdir()
+    sh = base / "solver.sh"
+    sh.write_text(FS_SOLVER.replace("@D@", str(base)))
+    sh.chmod(sh.stat().st_mode | stat.S_IEXEC)
+
+    def register(key, kind, v):
+        if kind == "timeout":
+            (base / "ans" / f"{key}.sleep").write_text("")
+            return
+        o, e = fs_answer(kind, v)
+        (base / "ans" / f"{key}.out").write_text(o)
+        if e:
+            (base / "ans" / f"{key}.err").write_text(e)
+
+    for f in sess["pre"]:
+        (d / f["name"]).write_text(f["content"])
+        if f.get("key"):
+            register(f["key"], f["kind"], f["v"])
+    obs = []
+    for st in sess["steps"]:
+        register(st["key"], st["k1"], st["v1"])
+        register(st["key"] + ".r", st["k2"], st["v2"])
+        before = read_dir(d)
+        log0 = (base / "log").read_text().splitlines() if (base / "log").exists() else []
+        q = SMTQuery(fs_smtlib(st["key"], st["changes"]), ["11", "12", "13"])
+        sctx = S.SolvingContext(dump_dir=d)
+        if st["core_hit"]:
+            sctx.unsat_cores.append(["12", "11"])
+        args = NS(verbose=0, cache_solver=st["cache"], resolved_solver_command=["/bin/sh", str(sh)],
+                  solver_timeout_assertion=1.0 if st["k1"] == "timeout" else 20)
+        ctx = S.PathContext(args=args, path_id=st["path_id"], solving_ctx=sctx, query=q, is_refined=st["is_refined"])
+        o = {"before": before, "refined_smtlib": ctx.refine().query.smtlib}
+        try:
+            out = S.solve_end_to_end(ctx)
+            o.update({"result": res_code(out.result), "valid": (1 if out.model.is_valid else 0) if out.model is not None else 0,
+                      "model": None if out.model is None else {k: v.value for k, v in out.model.model.items()}})
+        except Exception as e:  # noqa: BLE001
+            o["exc"] = f"{type(e).__name__}: {e}"
+        finally:
+            try:
+                sctx.executor.shutdown(wait=True)
+            except Exception:  # noqa: BLE001
+                pass
+        log1 = (base / "log").read_text().splitlines() if (base / "log").exists() else []
+        o["asked"] = [ln.split(" ", 1) for ln in log1[len(log0):]]   # [file name, key of its content]
+        o["after"] = read_dir(d)
+        obs.append(o)
+    shutil.rmtree(base, ignore_errors=True)
+    return obs
+
+
+def S_(s):
+    return [len(s)] + txt(s)
+
+
+def fs_model_call(sess, st, o):
+    """the same step for the extracted model: directory before, answers registered so far"""
+    answers = []
+    for f in sess["pre"]:
+        if f.get("key"):
+            answers.append((f["key"], f["kind"], f["v"]))
+    for s2 in sess["steps"]:
+        answers.append((s2["key"], s2["k1"], s2["v1"]))
+        answers.append((s2["key"] + ".r", s2["k2"], s2["v2"]))
+        if s2 is st:
+            break
+    a = [int(st["core_hit"]), int(st["is_refined"]), int(st["cache"]), st["path_id"]]
+    a += S_(fs_smtlib(st["key"], st["changes"])) + S_(o["refined_smtlib"])
+    a += [3] + S_("11") + S_("12") + S_("13")
+    a += [len(o["before"])]
+    for name, content in o["before"].items():
+        a += S_(name) + S_(content)
+    a += [len(answers)]
+    for key, kind, v in answers:
+        so, se = fs_answer(kind, v)
+        a += S_(key) + [1 if kind == "timeout" else 0] + S_(so) + S_(se)
+    return ("c04_fs", a)
+
+
+def fs_model_decode(mo):
+    """-> dict(result, valid, runs, source, after)"""
+    if not mo or len(mo) < 4:
+        return None
+    res, valid, runs = mo[0], mo[1], mo[2]
+    i = 3
+
+    def get():
+        nonlocal i
+        n = mo[i]
+        s = untxt(mo[i + 1:i + 1 + n])
+        i += 1 + n
+        return s
+
+    src = get()
+    n = mo[i]
+    i += 1
+    after = {}
+    for _ in range(n):
+        name = get()
+        after[name] = get()
+    return {"result": res, "valid": valid, "runs": runs, "source": src, "after": after}
+
+
 # ----------------------------------------------------------------- run
 
 def run(rep, tier):
@@ -439,6 +664,56 @@ def run(rep, tier):
             if want != have:
                 fail("broken-tie", f"solve_end_to_end on {c}: implementation {have}, model {want}", {"scripted": c, "implementation": have, "model": want})
 
+    # ---- X-fs: sequences of queries solved in one dump directory
+    sessions = gen_sessions(tier, r)
+    fcalls, fmeta = [], []
+    for si, sess in enumerate(sessions):
+        obs = run_session(sess, td)
+        for j, (st, o) in enumerate(zip(sess["steps"], obs)):
+            name = f"{st['path_id']}{'.refined' if st['is_refined'] else ''}.smt2"
+            stale = name in o["before"]
+            rep.count("fs_step", ("stale-file-present/" if stale else "fresh/") + st["k1"])
+            case = {"session": {"pre": sess["pre"], "steps": sess["steps"][:j + 1]}}
+            rep.case({"fs": common.case_hash(case)}, nontrivial=stale and not st["core_hit"])
+            if "exc" in o:
+                fail("failing-input", f"solve_end_to_end raised {o['exc']} in a used dump directory (step {j} of {sess['steps'][:j + 1]})", case, sig={"what": "e2e-raises"})
+                continue
+            sp = fs_spec(st)
+            timeout = st["k1"] == "timeout"
+            got_v = (o["model"] or {}).get("p_x_uint256_00")
+            asked_keys = [a[1] if len(a) > 1 else "" for a in o["asked"]]
+            if o["result"] == 1 and got_v != sp["value"]:
+                fail("failing-input", f"the counterexample reported for query {st['key']} (valid={o['valid']}) is p_x = {got_v}, but the solver's model of THIS query is p_x = {sp['value']}; "
+                     f"the solver was handed {o['asked']} (a file left in the dump directory by another query: {sorted(o['before'])})", case,
+                     sig={"what": "stale-query"})
+            elif (o["result"], o["valid"]) != (sp["result"], sp["valid"]):
+                fail("failing-input", f"query {st['key']} in a used dump directory ended with result {o['result']} valid {o['valid']}; the solver's answers to this query give result {sp['result']} valid {sp['valid']} (solver was handed {o['asked']})", case,
+                     sig={"what": "stale-query" if asked_keys != sp["keys"] else "fs-verdict"})
+            elif not timeout and asked_keys != sp["keys"]:
+                fail("failing-input", f"query {st['key']}: the solver was handed files holding the queries {asked_keys}, expected {sp['keys']}", case, sig={"what": "stale-query"})
+            else:
+                # the files left behind are those of this query (observe_at: dumped .smt2 / .smt2.out)
+                for i, k in enumerate(sp["keys"]):
+                    fn = name if (i == 0) else f"{st['path_id']}.refined.smt2"
+                    body = o["after"].get(fn, "")
+                    if f"; key={st['key']}\n" not in body or (k.endswith(".r")) != ("(define-fun f_evm_" in body):
+                        fail("failing-input", f"after solving {st['key']}, {fn} does not hold this query: {body[:120]!r}", case, sig={"what": "dump-file-stale"})
+                    elif not (timeout and i == 0):
+                        kind, v = (st["k1"], st["v1"]) if i == 0 else (st["k2"], st["v2"])
+                        if o["after"].get(fn + ".out") != fs_answer(kind, v)[0]:
+                            fail("failing-input", f"after solving {st['key']}, {fn}.out is not the solver's answer to it: {o['after'].get(fn + '.out', '')[:120]!r}", case, sig={"what": "dump-file-stale"})
+            fcalls.append(fs_model_call(sess, st, o))
+            fmeta.append((case, st, o))
+    if m is not None and fcalls:
+        for (case, st, o), mo in zip(fmeta, m.parallel_batch(fcalls)):
+            want = fs_model_decode(mo)
+            have = {"result": o["result"], "valid": o["valid"], "runs": len(o["asked"]), "after": o["after"]}
+            if want is not None and st["k1"] == "timeout":
+                have["runs"] = want["runs"]
+            if want is None or any(want[k] != have[k] for k in have):
+                diff = None if want is None else {k: (have[k], want[k]) for k in have if want[k] != have[k]}
+                fail("broken-tie", f"solve_end_to_end in a used dump directory, query {st['key']}: implementation vs model (implementation, model) differ in {str(diff)[:600]}", case)
+
     # ---- X-e2e with the real solvers
     rcases = gen_real_cases(tier, r)
     calls, robs = [], []
@@ -503,6 +778,11 @@ def replay(rep, body):
             print(case["model_output"], "->", real_parse_model(case["model_output"]))
         elif "scripted" in case:
             print(case["scripted"], "->", run_scripted(case["scripted"], td))
+        elif "session" in case:
+            sess = case["session"]
+            for st, o in zip(sess["steps"], run_session(sess, td)):
+                print(st, "\n   directory before:", sorted(o["before"]), "\n   solver was handed:", o.get("asked"), "\n   ->",
+                      {k: o.get(k) for k in ("result", "valid", "model", "exc") if k in o}, "\n   this query's answers demand:", fs_spec(st))
         elif "real" in case:
             o = run_real(case["real"], td)
             print(case["real"], "->", {k: o[k] for k in ("result", "valid", "source", "runs", "model")})
